@@ -35,10 +35,12 @@ def slotOf (ti : TreeInfo) (g : Nat) : Nat := (mapCapnum (mainCfg ti) (g : Int))
 
 /-- the world of one attempt of the program of `t` -/
 def worldOf (ti : TreeInfo) (t : GoNode) (TPx : TP) (env : VM.Env) (se : Spec.Env)
-    (hrel : EnvRel TPx (codeFromTree (mainCfg ti) t).2.sets env se) (hlen : se.n ≤ 2147483647) : World :=
+    (hrel : EnvRel TPx (codeFromTree (mainCfg ti) t).2.sets env se) (hlen : se.n ≤ 2147483647) (k : Nat)
+    (hlenS : 4 ≤ k → se.n < 2147483647) (hid : 6 ≤ k → ∀ g, slotOf ti g = g) (hecma : 6 ≤ k → env.ecma = false) : World :=
   { X := { p := emit ti t, env := env, se := se, sl := slotOf ti },
     TPx := TPx, caps := (writerCaps ti).2, fin := (codeFromTree (mainCfg ti) t).2,
-    hrel := hrel, hstr := rfl, hnsets := rfl, hsl := fun _ => rfl, hlen := hlen }
+    hrel := hrel, hstr := rfl, hnsets := rfl, hsl := fun _ => rfl, hlen := hlen, k := k, hlenS := hlenS,
+    hid := hid, hecma := hecma }
 
 theorem instrAt_of_split {p : Prog} {pre post : Code} {i : Instr} (hc : p.codes = (flatten (pre ++ i :: post)).toArray)
     (hop : i.op < 1024) : InstrAt p (codeLen pre) i := by
@@ -83,32 +85,75 @@ theorem codeAt_root (ti : TreeInfo) (t : GoNode) (hok : t.ok = true) :
     simpa using this
 
 theorem inFrag_spec {k : Nat} {TPx : TP} {ti : TreeInfo} {t : GoNode} (h : InFrag k TPx ti t = true) :
-    (toPatRoot TPx false t).isSome = true ∧ tier t ≤ k ∧ ti.rtl = false ∧ mapCapnum (mainCfg ti) 0 = 0 := by
-  simp only [InFrag, Bool.and_eq_true, decide_eq_true_eq, Bool.not_eq_true', beq_iff_eq] at h
-  exact ⟨h.1.1.1, h.1.1.2, h.1.2, h.2⟩
+    (toPatRoot TPx ti.rtl t).isSome = true ∧ tier t ≤ k ∧ (ti.rtl = false ∨ 7 ≤ k) ∧ mapCapnum (mainCfg ti) 0 = 0 ∧
+      (6 ≤ tier t → ∀ g, slotOf ti g = g) := by
+  simp only [InFrag, Bool.and_eq_true, decide_eq_true_eq, Bool.not_eq_true', beq_iff_eq, Bool.or_eq_true] at h
+  refine ⟨h.1.1.1.1, h.1.1.1.2, h.1.1.2, h.1.2, ?_⟩
+  intro h6 g
+  rcases h.2 with h2 | h2
+  · omega
+  · have hnone : (writerCaps ti).2 = none := by simpa using h2
+    have hne : ¬ ((g : Int) = -1) := by omega
+    simp [slotOf, mainCfg, hnone, mapCapnum, hne]
+
+/-- `Lazybranch|Back` on a frame whose data slot is any integer (the bottom frame after `UpdateBumpalong`): the
+    interpreter stands in front of the target; the text position is that integer -/
+theorem lazybranch_back_raw {X : Setup} {a t : Nat} {z : Int} {T S : List Int} {C : List (Nat × Nat × Nat)} {s : VMState}
+    (hfail : FailAt X ((a : Int) :: z :: T) S C s) (hia : InstrAt X.p a (i1 opLazybranch (t : Int)))
+    (hf : ∃ w, VM.fetch X.p t = .ok w) :
+    Leads X s (fun s' => s'.codepos = t ∧ VM.fetch X.p t = .ok s'.oper ∧ s'.track = T ∧ s'.stack = S ∧
+      CapRep X.sl X.p.capsize s'.cap C) := by
+  obtain ⟨w, hw⟩ := hf
+  obtain ⟨s2, chk, hst, hbe⟩ := fail_step hfail hia.fetch
+  refine Leads.of_step hst ?_
+  have hoper : s2.oper = ⟨opLazybranch, false, true, false, false⟩ := by
+    have : decode (i1 opLazybranch (t : Int)).op = ⟨opLazybranch, false, false, false, false⟩ :=
+      decode_plain opLazybranch (by decide)
+    rw [hbe.op, this]
+  have hop : Op.ofNat? s2.oper.op = some .lazybranch := by rw [hoper]; rfl
+  have hb : s2.oper.back = true := by rw [hoper]
+  have hb2 : s2.oper.back2 = false := by rw [hoper]
+  have hbody : VM.body X.p X.env s2 = .ok (VM.textto { s2 with track := T } z, .goto (t : Int)) := by
+    simp only [body, hop, modeOf, hb, hb2, caseLazybranchBack, hbe.tr, hia.operand hbe.pc 0 (t : Int) rfl, Except.map]
+  exact Leads.of_step (step_goto hbody hw) (Leads.here ⟨rfl, hw, rfl, hbe.st, hbe.cap⟩)
+
+theorem stop_step_raw {X : Setup} {a : Nat} {s : VMState} (hpc : s.codepos = a) (hop : VM.fetch X.p a = .ok s.oper)
+    (hia : InstrAt X.p a (i0 opStop)) : VM.step X.p X.env s = .stop s := by
+  have hoper : s.oper = ⟨opStop, false, false, false, false⟩ := by
+    have := hia.fetch
+    rw [hop] at this
+    rw [Except.ok.inj this]; exact decode_plain opStop (by decide)
+  have hop' : Op.ofNat? s.oper.op = some .stop := by rw [hoper]; rfl
+  have hb : s.oper.back = false := by rw [hoper]
+  have hb2 : s.oper.back2 = false := by rw [hoper]
+  have hbody : VM.body X.p X.env s = .ok (s, .halt) := by simp only [body, hop', modeOf, hb, hb2]
+  rw [step_of_body_ok X.p X.env hbody]; rfl
 
 /-- what the final state of an attempt says about the specification's answer -/
 structure Agrees (ti : TreeInfo) (se : Spec.Env) (pat : Pat) (i : Nat) (s : VMState) : Prop where
   /-- `runmatch.matchcount[0] > 0` exactly when the specification's attempt succeeds -/
-  verdict : VM.matched s = (Spec.attempt se pat false i).isSome
+  verdict : VM.matched s = (Spec.attempt se pat ti.rtl i).isSome
   /-- on success the interpreter stands at the end of the match … -/
-  pos : ∀ st, Spec.attempt se pat false i = some st → s.textpos = (st.pos : Int)
+  pos : ∀ st, Spec.attempt se pat ti.rtl i = some st → s.textpos = (st.pos : Int)
   /-- … and the capture arrays hold, slot by slot and in order, the intervals of the specification's capture log -/
-  caps : ∀ st, Spec.attempt se pat false i = some st → CapRep (slotOf ti) (capsize ti) s.cap st.caps
+  caps : ∀ st, Spec.attempt se pat ti.rtl i = some st → CapRep (slotOf ti) (capsize ti) s.cap st.caps
 
-/-- **the refinement on the fragment of the tiers `≤ maxTier`** -/
-theorem compile_correct_upto (ti : TreeInfo) (t : GoNode) (TPx : TP) (env : VM.Env) (se : Spec.Env) (pat : Pat) (i : Nat)
-    (hfrag : InFrag maxTier TPx ti t = true) (hwf : treeWf ti t = true) (hpat : toPatRoot TPx false t = some pat)
-    (hrel : EnvRel TPx (codeFromTree (mainCfg ti) t).2.sets env se) (hi : i ≤ se.n) (hlen : se.n ≤ 2147483647) :
+/-- **the refinement on the fragment of a tier `k ≤ maxTier`**; from tier 4 on (general loops) the text must be strictly
+    shorter than `MaxInt32` -/
+theorem compile_correct_upto (k : Nat) (hk : k ≤ maxTier) (ti : TreeInfo) (t : GoNode) (TPx : TP) (env : VM.Env)
+    (se : Spec.Env) (pat : Pat) (i : Nat)
+    (hfrag : InFrag k TPx ti t = true) (hwf : treeWf ti t = true) (hpat : toPatRoot TPx ti.rtl t = some pat)
+    (hrel : EnvRel TPx (codeFromTree (mainCfg ti) t).2.sets env se) (hi : i ≤ se.n) (hlen : se.n ≤ 2147483647)
+    (hlenS : 4 ≤ k → se.n < 2147483647) (hecma : 6 ≤ k → env.ecma = false) :
     ∃ s0 s n, VM.init (emit ti t) (i : Int) = .ok s0 ∧
       (∀ fuel, n ≤ fuel → (VM.run (emit ti t) env fuel s0).1 = .done s) ∧ Agrees ti se pat i s := by
-  obtain ⟨_, htier, _, hslot0⟩ := inFrag_spec hfrag
+  obtain ⟨_, htier, _, hslot0, hid⟩ := inFrag_spec hfrag
   obtain ⟨body, ht, hbody⟩ := toPatRoot_some hpat
   simp only [treeWf, Bool.and_eq_true] at hwf
   obtain ⟨⟨hok, hcaps⟩, hbd⟩ := hwf
   obtain ⟨hlb, hroot, hstop⟩ := codeAt_root ti t hok
-  let W := worldOf ti t TPx env se hrel hlen
-  have hpr : toPat TPx false t = some (.cap 0 pat) := by
+  let W := worldOf ti t TPx env se hrel hlen (tier t) (fun h => hlenS (by omega)) hid (fun h => hecma (by omega))
+  have hpr : toPat TPx ti.rtl t = some (.cap 0 pat) := by
     rw [ht]; simp [toPat, hbody]
   -- slot of group 0
   have hsl0 : slotOf ti 0 = 0 := by simp [slotOf, hslot0]
@@ -124,32 +169,33 @@ theorem compile_correct_upto (ti : TreeInfo) (t : GoNode) (TPx : TP) (env : VM.E
   have he0 : Entry W.X 0 i [] [] [] s0 := ⟨rfl, hf0, rfl, rfl, rfl, capRep_init _ _⟩
   obtain ⟨s1, hr1, he1⟩ := lazybranch_leads (X := W.X) he0 hlb hroot.fetch_start
   have hwfst : St.wf se.n ⟨i, []⟩ := ⟨hi, by simp⟩
-  have hdel := node_delivers W t 2 ⟨[], []⟩ (.cap 0 pat) htier hpr hok hcaps hbd hroot (TabExt.refl _) i
-    [(0 : Int), (i : Int)] [] [] s1 hwfst (by simp) (by simpa using he1)
-  replace hdel : Delivers W.X (2 + size (mainCfg ti) t) [(0 : Int), (i : Int)] [] [] []
-      (m se (.cap 0 pat) false ⟨i, []⟩) s1 := hdel
+  have hdel := node_delivers W (show W.k ≤ maxTier from Nat.le_trans htier hk) t ti.rtl 2 ⟨[], []⟩ (.cap 0 pat) (Nat.le_refl _) hpr hok hcaps hbd hroot (TabExt.refl _) i
+    [(0 : Int)] [] (i : Int) [] s1 hwfst (by simpa using he1)
+  replace hdel : Delivers W.X (2 + size (mainCfg ti) t) [(0 : Int)] [] [] []
+      (m se (.cap 0 pat) ti.rtl ⟨i, []⟩) s1 := hdel
   refine ⟨s0, ?_⟩
-  cases hrs : m se (.cap 0 pat) false ⟨i, []⟩ with
+  cases hrs : m se (.cap 0 pat) ti.rtl ⟨i, []⟩ with
   | nil =>
     rw [hrs] at hdel
-    obtain ⟨s2, hr2, hf2⟩ := hdel
-    obtain ⟨s3, hr3, he3⟩ := lazybranch_back (X := W.X) (T := []) (by simpa using hf2) hlb ⟨_, hstop.fetch⟩
-    have hst := stop_step he3 hstop
+    obtain ⟨s2, hr2, v', hf2⟩ := hdel
+    obtain ⟨s3, hr3, hpc3, hop3, _, _, hcap3⟩ := lazybranch_back_raw (X := W.X) (a := 0) (T := []) (by simpa using hf2) hlb
+      ⟨_, hstop.fetch⟩
+    have hst := stop_step_raw hpc3 hop3 hstop
     obtain ⟨n, hn⟩ := run_of_reach ((hr1.trans hr2).trans hr3) hst
     refine ⟨s3, n, hinit, hn, ?_⟩
-    have hatt : Spec.attempt se pat false i = none := by simp [Spec.attempt, hrs]
+    have hatt : Spec.attempt se pat ti.rtl i = none := by simp [Spec.attempt, hrs]
     refine ⟨?_, by simp [hatt], by simp [hatt]⟩
-    have hcnt := he3.cap.cnt 0 hcs
+    have hcnt := hcap3.cnt 0 hcs
     simp [VM.matched, hatt, hcnt]
   | cons r rs =>
     rw [hrs] at hdel
-    obtain ⟨F, _, ⟨s2, hr2, he2⟩, _⟩ := hdel
+    obtain ⟨F, _, ⟨s2, hr2, v', he2⟩, _⟩ := hdel
     have hst := stop_step he2 hstop
     obtain ⟨n, hn⟩ := run_of_reach (hr1.trans hr2) hst
     refine ⟨s2, n, hinit, hn, ?_⟩
-    have hatt : Spec.attempt se pat false i = some r := by simp [Spec.attempt, hrs]
+    have hatt : Spec.attempt se pat ti.rtl i = some r := by simp [Spec.attempt, hrs]
     refine ⟨?_, ?_, ?_⟩
-    · have hmem : r ∈ m se (.cap 0 pat) false ⟨i, []⟩ := by rw [hrs]; simp
+    · have hmem : r ∈ m se (.cap 0 pat) ti.rtl ⟨i, []⟩ := by rw [hrs]; simp
       simp only [m, List.mem_map] at hmem
       obtain ⟨y, _, hy⟩ := hmem
       have hcnt := he2.cap.cnt 0 hcs
@@ -163,10 +209,17 @@ theorem compile_correct_upto (ti : TreeInfo) (t : GoNode) (TPx : TP) (env : VM.E
     · intro st hst'; rw [hatt] at hst'; cases hst'; exact he2.tp
     · intro st hst'; rw [hatt] at hst'; cases hst'; exact he2.cap
 
+/-- below tier 7 the fragment has only left-to-right trees -/
+theorem inFrag_ltr {k : Nat} (hk : k < 7) {TPx : TP} {ti : TreeInfo} {t : GoNode} (h : InFrag k TPx ti t = true) :
+    ti.rtl = false := by
+  rcases (inFrag_spec h).2.2.1 with h | h
+  · exact h
+  · omega
+
 theorem inFrag_mono {k k' : Nat} (hk : k ≤ k') {TPx : TP} {ti : TreeInfo} {t : GoNode} (h : InFrag k TPx ti t = true) :
     InFrag k' TPx ti t = true := by
-  simp only [InFrag, Bool.and_eq_true, decide_eq_true_eq, Bool.not_eq_true', beq_iff_eq] at h ⊢
-  exact ⟨⟨⟨h.1.1.1, by omega⟩, h.1.2⟩, h.2⟩
+  simp only [InFrag, Bool.and_eq_true, decide_eq_true_eq, Bool.not_eq_true', beq_iff_eq, Bool.or_eq_true] at h ⊢
+  exact ⟨⟨⟨⟨h.1.1.1.1, by omega⟩, h.1.1.2.imp id (fun h2 => by omega)⟩, h.1.2⟩, h.2⟩
 
 /-! ## concrete instances for the non-vacuity examples of Props/C01 -/
 
@@ -219,5 +272,58 @@ def ccAZ : List Nat := [0, 1, 0, 0, 0, 0, 0, 0, 0, 97, 122, 2097152, 97, 122]
 
 /-- `(?=a)[a-z]` -/
 def ccT4 : GoNode := .capture 0 (-1) (.concat [.poslook (.char opOne false false 97), .set false false ccAZ])
+
+/-- `(?:ab|c)+d` -/
+def ccT5 : GoNode :=
+  .capture 0 (-1) (.concat [.loop false 1 maxInt32 (.alt [.multi false false [97, 98], .char opOne false false 99]),
+    .char opOne false false 100])
+
+/-- `(?:a{2}b){1,3}?c` -/
+def ccT6 : GoNode :=
+  .capture 0 (-1) (.concat [.loop true 1 3 (.concat [.charloop opOneloop false false 97 2 2, .char opOne false false 98]),
+    .char opOne false false 99])
+
+/-- `(a*)+b` -/
+def ccT7 : GoNode :=
+  .capture 0 (-1) (.concat [.loop false 1 maxInt32 (.capture 1 (-1) (.charloop opOneloop false false 97 0 maxInt32)),
+    .char opOne false false 98])
+
+/-- `.*ab` (`Notoneloop(\n)* ; UpdateBumpalong ; Multi "ab"`) -/
+def ccT8 : GoNode :=
+  .capture 0 (-1) (.concat [.charloop opNotoneloop false false 10 0 maxInt32, .bare opUpdateBumpalong,
+    .multi false false [97, 98]])
+
+/-- `(a)\1` -/
+def ccT9 : GoNode := .capture 0 (-1) (.concat [.capture 1 (-1) (.char opOne false false 97), .ref false false 1])
+
+/-- `(a)?(?(1)b|c)` -/
+def ccT10 : GoNode :=
+  .capture 0 (-1) (.concat [.loop false 0 1 (.capture 1 (-1) (.char opOne false false 97)),
+    .backrefcond2 1 (.char opOne false false 98) (.char opOne false false 99)])
+
+/-- `(?(?=(a))ab|c)` -/
+def ccT11 : GoNode :=
+  .capture 0 (-1) (.exprcond3 (.poslook (.capture 1 (-1) (.char opOne false false 97))) (.multi false false [97, 98])
+    (.char opOne false false 99))
+
+/-- a tree compiled with the option RightToLeft -/
+def ccInfoR (captop : Int) : TreeInfo := { captop := captop, capnumlist := none, caps := [], rtl := true }
+
+/-- `(?<=ab)c` -/
+def ccT12 : GoNode := .capture 0 (-1) (.concat [.poslook (.multi true false [97, 98]), .char opOne false false 99])
+
+/-- `(?:ab|c)+d` under RightToLeft: the parser stores the concatenation reversed -/
+def ccT13 : GoNode :=
+  .capture 0 (-1) (.concat [.char opOne true false 100,
+    .loop false 1 maxInt32 (.alt [.multi true false [97, 98], .char opOne true false 99])])
+
+/-- `a+b` under RightToLeft: stored `b`, then the loop -/
+def ccT14 : GoNode :=
+  .capture 0 (-1) (.concat [.char opOne true false 98, .charloop opOneloop true false 97 1 maxInt32])
+
+/-- `(?<=ca*?)b`: the body of the lookbehind is stored reversed -/
+def ccT15 : GoNode :=
+  .capture 0 (-1) (.concat [.poslook (.concat [.charloop opOnelazy true false 97 0 maxInt32, .char opOne true false 99]),
+    .char opOne false false 98])
 
 end RegexVerif.Compile
